@@ -233,3 +233,19 @@ Proof.
   rewrite (decimal_literal_erasure sp c r Hc H0), Hcl, Hsp.
   unfold ref_str_parse. now rewrite (rust_float_syntax_dec_text ip fp ex Hi Hf Hne Hex).
 Qed.
+
+(* ---------------------------------------------------------------- to_string -> to_number, from the
+   same Display contract (here str::parse sees the sign itself) *)
+Definition parse_contract_signed (sp : string -> option num) : Prop :=
+  forall s ip fp, all_digits ip = true -> ip <> "" -> all_digits fp = true ->
+    sp (sign_str s ++ plain ip fp) = ref_str_parse (sign_str s ++ plain ip fp).
+
+Theorem to_string_to_number_contract : forall (display : num -> string) sp x,
+  parse_contract_signed sp -> display_contract (display x) x ->
+  to_number_str sp (to_string_num display x) = Ok x.
+Proof.
+  intros display sp x Hsp (ip & fp & Ht & Hi & Hne & Hf & Hval).
+  unfold to_number_str, to_string_num. rewrite Ht, (Hsp _ ip fp Hi Hne Hf).
+  unfold ref_str_parse. rewrite (rust_float_syntax_plain _ ip fp Hi Hne Hf).
+  cbn [option_map fnum_value of_option]. now rewrite Hval.
+Qed.
